@@ -105,9 +105,9 @@ def run(tier, seed, replay=None):
     tdir = os.path.join(CACHE, "e2e", "c07-%d" % os.getpid())
     os.makedirs(tdir, exist_ok=True)
     credfile = os.path.join(tdir, "accepted")
-    open(credfile, "w").write("carol:pw1\n")
+    open(credfile, "w").write("carol|pw1\ndora|s3:cret\n")
     lp = {"req": e2e.free_port(), "opt": e2e.free_port()}
-    cmd = ["sh", "-c", "grep -qxF \"$0:$1\" %s" % credfile, "#USER#", "#PASS#"]
+    cmd = ["sh", "-c", "grep -qxF \"$0|$1\" %s" % credfile, "#USER#", "#PASS#"]
     listeners = [{"name": "req", "type": "socks", "bind": "%s:%d" % (LOOP, lp["req"]),
                   "auth": {"required": True, "users": [{"username": "alice", "password": "secret"}], "cmd": cmd, "cache": {"timeout": 2}}},
                  {"name": "opt", "type": "socks", "bind": "%s:%d" % (LOOP, lp["opt"]), "auth": {"required": False, "users": [{"username": "alice", "password": "secret"}]}}]
@@ -149,10 +149,16 @@ def run(tier, seed, replay=None):
         attempt("command accepts carol/pw1", lp["req"], [2], (b"carol", b"pw1"), True)
         attempt("carol with another password right after a cached success", lp["req"], [2], (b"carol", b"pw2"), False)
         attempt("another user with carol's password", lp["req"], [2], (b"caro", b"lpw1"), False)
-        open(credfile, "w").write("nobody:x\n")           # revoked
+        # the cache is keyed by the exact pair: pairs that merely concatenate to the same text are different pairs
+        attempt("command accepts dora/'s3:cret'", lp["req"], [2], (b"dora", b"s3:cret"), True)
+        attempt("'dora:s3'/'cret' right after dora/'s3:cret' was cached", lp["req"], [2], (b"dora:s3", b"cret"), False)
+        attempt("'dora:s3:cret' with an empty password after dora/'s3:cret' was cached", lp["req"], [2], (b"dora:s3:cret", b""), False)
+        attempt("SOCKS4 id 'dora:s3:cret' after dora/'s3:cret' was cached", lp["req"], None, None, False, socks4_user=b"dora:s3:cret")
+        attempt("'dor'/'a|s3:cret'... shifted split", lp["req"], [2], (b"dor", b"as3:cret"), False)
+        open(credfile, "w").write("nobody|x\n")           # revoked
         time.sleep(3.2)                                     # cache timeout 2 s
         attempt("carol/pw1 after revocation and cache expiry", lp["req"], [2], (b"carol", b"pw1"), False)
-        open(credfile, "w").write("carol:pw1\n")
+        open(credfile, "w").write("carol|pw1\n")
         time.sleep(3.2)                                     # the cached refusal expires as well
         attempt("carol/pw1 re-admitted after the cached refusal expired", lp["req"], [2], (b"carol", b"pw1"), True)
         if not p.alive():
